@@ -192,6 +192,12 @@ Section Mono.
       destruct (push_frame st1 cur) as [st2 fr].
       destruct (declare_all st2 fr [(x, v)]) as [st3 [?|?|]]; cbn [bindR]; try reflexivity.
       apply Hle.
+    - (* ETryP *) unfold eval_tryp. rec_step as st1 v0 sg; try reflexivity.
+      destruct sg; try reflexivity.
+      destruct (match_cpat p v); try reflexivity.
+      destruct (push_frame st1 cur) as [st2 fr].
+      destruct (declare_all st2 fr a) as [st3 [?|?|]]; cbn [bindR]; try reflexivity.
+      apply Hle.
     - (* EThrow *) rec_step as st1 v sg; reflexivity.
     - (* EAnd *) unfold eval_shortcut. rec_step as st1 v sg; cbn [bindR]; try reflexivity.
       destruct (truthy v); [apply Hle | reflexivity].
@@ -474,6 +480,16 @@ Section Inv.
         assert (Hfr : fr = List.length (frames s)) by (unfold push_frame in Ep; inversion Ep; reflexivity).
         assert (Hst1 : st2 = fst (push_frame s cur)) by (rewrite Ep; reflexivity).
         destruct (declare_all st2 fr [(x, v)]) as [st3 [?|?|]] eqn:Ed; apply declare_all_inv in Ed; cbn [bindR].
+        + intros H; apply Hrec in H. assert (P cur s st') by (subst; apply (P_scope cur cur); chain). chain.
+        + intros H; inversion H; subst. assert (P cur s st') by (apply (P_scope cur cur); chain). chain.
+        + intros H; inversion H; subst. assert (P cur s st') by (apply (P_scope cur cur); chain). chain.
+      - (* ETryP *) unfold eval_tryp. dr; try fin.
+        destruct s0; try fin.
+        destruct (match_cpat p v) as [bs| |]; try fin.
+        destruct (push_frame s cur) as [st2 fr] eqn:Ep.
+        assert (Hfr : fr = List.length (frames s)) by (unfold push_frame in Ep; inversion Ep; reflexivity).
+        assert (Hst1 : st2 = fst (push_frame s cur)) by (rewrite Ep; reflexivity).
+        destruct (declare_all st2 fr bs) as [st3 [?|?|]] eqn:Ed; apply declare_all_inv in Ed; cbn [bindR].
         + intros H; apply Hrec in H. assert (P cur s st') by (subst; apply (P_scope cur cur); chain). chain.
         + intros H; inversion H; subst. assert (P cur s st') by (apply (P_scope cur cur); chain). chain.
         + intros H; inversion H; subst. assert (P cur s st') by (apply (P_scope cur cur); chain). chain.
@@ -1292,4 +1308,81 @@ Proof.
   change (eval (S n)) with (evalF (eval n)). cbn [evalF]. unfold eval_for_expr. cbv iota.
   rewrite (eval_for_iter _ _ _ _ _ _ _ _ _ _ E).
   rewrite (for_each_map_filter n cur x g e gf ef xs Hg He). reflexivity.
+Qed.
+
+(* ================================================================ 12. selective catch patterns *)
+(* Try with a pattern: everything but a Throw passes through untouched *)
+Theorem tryp_catches_only_throw : forall n st cur b p h st1 r,
+  eval n st cur b = (st1, r) -> (forall v, r <> Sig (SThrow v)) ->
+  eval (S n) st cur (ETryP b p h) = (st1, r).
+Proof.
+  intros n st cur b p h st1 r E H.
+  change (eval (S n)) with (evalF (eval n)). cbn [evalF]. unfold eval_tryp. rewrite E.
+  destruct r as [?|[]|]; try reflexivity. exfalso. eapply H. reflexivity.
+Qed.
+
+(* a pattern that refuses the thrown value: the SAME value keeps travelling, and store and
+   output are exactly those the body left - the handler did nothing *)
+Theorem catch_mismatch_rethrows_original : forall n st cur b p h st1 v,
+  eval n st cur b = (st1, Sig (SThrow v)) -> match_cpat p v = TThrow ->
+  eval (S n) st cur (ETryP b p h) = (st1, Sig (SThrow v)).
+Proof.
+  intros n st cur b p h st1 v E M.
+  change (eval (S n)) with (evalF (eval n)). cbn [evalF]. unfold eval_tryp. rewrite E, M. reflexivity.
+Qed.
+
+(* a pattern that accepts: the handler runs in a fresh frame holding what the pattern binds *)
+Theorem catch_match_runs_handler : forall n st cur b p h st1 v bs,
+  eval n st cur b = (st1, Sig (SThrow v)) -> match_cpat p v = TOk bs ->
+  eval (S n) st cur (ETryP b p h) =
+  bindR (declare_all (fst (push_frame st1 cur)) (List.length (frames st1)) bs)
+        (fun st3 _ => eval n st3 (List.length (frames st1)) h).
+Proof.
+  intros n st cur b p h st1 v bs E M.
+  change (eval (S n)) with (evalF (eval n)). cbn [evalF]. unfold eval_tryp. rewrite E, M. reflexivity.
+Qed.
+
+(* when each kind of pattern refuses *)
+Theorem cpat_refusal : forall v,
+  (forall x, match_cpat (CName x) v = TOk [(x, v)]) /\
+  (forall z, v <> VInt z -> match_cpat (CInt z) v = TThrow) /\
+  (forall z, match_cpat (CInt z) (VInt z) = TOk []) /\
+  (forall s, v <> VStr s -> v <> VErr -> match_cpat (CStr s) v = TThrow) /\
+  ((forall z, v <> VInt z) -> match_cpat (CWild (Some TInt)) v = TThrow) /\
+  ((forall l, v <> VList l) -> match_cpat (CWild (Some TList)) v = TThrow) /\
+  ((forall s, v <> VStr s) -> v <> VErr -> match_cpat (CWild (Some TStr)) v = TThrow) /\
+  (forall xs l, v = VList l -> List.length l <> List.length xs -> match_cpat (CList xs) v = TThrow) /\
+  (forall xs l, v = VList l -> List.length l = List.length xs -> nodupb xs = true ->
+     match_cpat (CList xs) v = TOk (combine xs l)).
+Proof.
+  intros v. repeat split.
+  - intros z H. destruct v; try reflexivity. cbn. destruct (Z.eqb_spec z z0); [congruence|reflexivity].
+  - intros z. cbn. rewrite Z.eqb_refl. reflexivity.
+  - intros s H1 H2. destruct v; try reflexivity; try congruence.
+    cbn. destruct (String.eqb_spec s s0); [congruence|reflexivity].
+  - intros H. destruct v; try reflexivity. exfalso. eapply H. reflexivity.
+  - intros H. destruct v; try reflexivity. exfalso. eapply H. reflexivity.
+  - intros H1 H2. destruct v; try reflexivity; try congruence; try (exfalso; eapply H1; reflexivity).
+  - intros xs l -> H. cbn. apply Nat.eqb_neq in H. rewrite H. reflexivity.
+  - intros xs l -> H N. cbn. apply Nat.eqb_eq in H. rewrite H, N. reflexivity.
+Qed.
+
+(* names bound by a catch pattern, and whatever the handler declares, are dropped *)
+Lemma catchp_scope : forall n st cur b p h st1 v st' r,
+  eval n st cur b = (st1, Sig (SThrow v)) ->
+  eval (S n) st cur (ETryP b p h) = (st', r) ->
+  preserves_all st1 st'.
+Proof.
+  intros n st cur b p h st1 v st' r Eb H.
+  change (eval (S n)) with (evalF (eval n)) in H. cbn [evalF] in H. unfold eval_tryp in H. rewrite Eb in H.
+  destruct (match_cpat p v) as [bs| |];
+    try solve [inversion H; subst; intros f fr0 Hf; exists fr0; auto].
+  destruct (push_frame st1 cur) as [st2 fr] eqn:Ep.
+  assert (Hfr : fr = List.length (frames st1)) by (unfold push_frame in Ep; inversion Ep; reflexivity).
+  assert (Hst1 : st2 = fst (push_frame st1 cur)) by (rewrite Ep; reflexivity).
+  apply (preserves_fresh_all cur). rewrite <- Hfr, <- Hst1.
+  destruct (declare_all st2 fr bs) as [st3 rd] eqn:Ed.
+  apply (declare_all_inv preserves preserves_refl preserves_trans preserves_declare) in Ed.
+  destruct rd as [u|sg|]; cbn [bindR] in H; try (inversion H; subst; assumption).
+  apply scope_discipline in H. eapply preserves_trans; eassumption.
 Qed.
